@@ -23,6 +23,7 @@ RULES = [
     (r'^panic:(arrival|wcet)::curve::Curve::extrapolate(_steps|_with_bound)?:assert#', PRECOND + ' (assert!(n >= 2) of extrapolate_next, dominated by can_extrapolate() at every call)'),
     (r'^panic:<arrival::arrival_curve_prefix::ArrivalCurvePrefix as arrival::ArrivalBound>::number_arrivals:assert#', PRECOND + ' (lookup: delta <= horizon holds because the argument is delta % horizon)'),
     (r'^panic:arrival::arrival_curve_prefix::<impl std::convert::From<&?arrival::arrival_curve_prefix::ArrivalCurvePrefix> for arrival::curve::Curve>::from:assert#', PRECOND),
+    (r'^panic:<arrival::curve::(Curve|ExtrapolatingCurve) as arrival::ArrivalBound>::number_arrivals:panic#\d+$', 'unreachable (the panic!() that ends lookup_arrivals): callers pass tail < largest_known_distance (tail = delta % largest), so the search finds an entry at the last position at the latest'),
     (r'^panic:arrival::curve::Curve::lookup_arrivals:panic#\d+$', 'unreachable: callers pass tail < largest_known_distance (tail = delta % largest), so the scan returns at the last entry at the latest'),
     (r'^panic:.*:panic#\d+@lookup_arrivals$', 'unreachable: callers pass tail < largest_known_distance (tail = delta % largest), so the scan returns at the last entry at the latest'),
     (r'^panic:arrival::curve::Curve::from_trace:debug_assert#\d+@distance_to', DBGX + ': the trace is non-decreasing (asserted against the newest element at loop entry; older elements by induction)'),
